@@ -216,6 +216,7 @@ type Spec struct {
 	ModIBC    bool
 	ExtChains []string
 	Mod2      []string // optional second module-owned token's chains (nil = none)
+	Mod2Denom string   `json:",omitempty"` // its base denom ("" = pundix): case variants / near-misses of the special denoms
 	ExtFalse  bool     `json:",omitempty"` // the externally-owned token returns false instead of reverting (falsetoken.go)
 }
 
@@ -254,7 +255,19 @@ func NewWorld(c *lib.Chain, sp Spec, hseed int64) *World {
 	lib.Must(err)
 	w.Toks = append(w.Toks, ext)
 	if sp.Mod2 != nil {
-		m2, err := c.SetupModuleOwned("PUNDIX", 3, sp.Mod2, "")
+		var m2 *lib.Token
+		if sp.Mod2Denom == "" {
+			m2, err = c.SetupModuleOwned("PUNDIX", 3, sp.Mod2, "")
+		} else {
+			d := sp.Mod2Denom
+			if d == "@alias" { // the bridge denomination of the first token on eth, in another case (a different denom string)
+				d = strings.ToLower(mod.Aliases[0].Denom)
+				if d == mod.Aliases[0].Denom {
+					d = strings.ToUpper(d[:3]) + d[3:]
+				}
+			}
+			m2, err = c.SetupModuleOwnedAs(d, "SND", 3, sp.Mod2, "")
+		}
 		lib.Must(err)
 		w.Toks = append(w.Toks, m2)
 	}
@@ -399,6 +412,19 @@ func (w *World) executableAgain(c int, n uint64) bool {
 		return errProbe
 	})
 	return err == errProbe
+}
+
+// isUserLike: a tracked non-module account (user or contract)
+func (w *World) isUserLike(a int) bool { return a >= uBase }
+
+// wouldSucceed runs the operation on a branch that is always discarded
+func (w *World) wouldSucceed(o *Op) bool {
+	saved := w.C.Ctx
+	branch, _ := saved.CacheContext()
+	w.C.Ctx = branch
+	defer func() { w.C.Ctx = saved }()
+	cp := *o
+	return w.Exec(&cp) == nil
 }
 
 // ---------------- EVM transactions from an EOA ----------------
